@@ -145,7 +145,24 @@ pub fn join<T: std::fmt::Display, I: IntoIterator<Item = T>>(it: I) -> String {
     s
 }
 
+/// A logger that accepts every level: `log::debug!(..)` and friends evaluate their arguments only when a
+/// logger is installed at that level, so code hidden in a log argument runs here as it would in an
+/// application that enables logging.
+struct AllLevels;
+impl log::Log for AllLevels {
+    fn enabled(&self, _: &log::Metadata) -> bool {
+        true
+    }
+    fn log(&self, record: &log::Record) {
+        let _ = format!("{}", record.args());
+    }
+    fn flush(&self) {}
+}
+static LOGGER: AllLevels = AllLevels;
+
 fn main() {
+    let _ = log::set_logger(&LOGGER);
+    log::set_max_level(log::LevelFilter::Trace);
     std::panic::set_hook(Box::new(|info| {
         if let Ok(mut m) = LAST_PANIC.try_lock() {
             *m = format!("{info}").chars().take(300).collect();
